@@ -17,6 +17,18 @@ from . import dimsegen as dg
 from . import refcmd, refpdu, pdugen as g
 
 
+class _NoMachine(object):
+    """The `state_machine` ivar of the scripted provider: messages are handed over complete, so no message is ever
+    half-received (`dimse_decoder` is None, as in the real machine between messages).  Anything else is not modelled."""
+    dimse_decoder = None
+
+    def __getattr__(self, name):
+        if name.startswith('__'):
+            raise AttributeError(name)
+        from .common import HarnessError
+        raise HarnessError('scripted provider\'s state_machine has no %r: it does not fit this tree' % (name,))
+
+
 class FakeDUL(object):
     """Stands in for dulprovider.DULServiceProvider."""
 
@@ -33,6 +45,7 @@ class FakeDUL(object):
         self.dul_socket = dul_socket
         self.max_pdu_length = max_pdu_length
         self.accepted_contexts = {}
+        self.state_machine = _NoMachine()
         self.sent = []
         self.inbox = collections.deque()
         self.responder = None
